@@ -53,7 +53,8 @@ Outcomes(seq, isQuery) ==
                               \cup {[o |-> "abort", code |-> k] : k \in CodeClasses}
                               \cup {[o |-> "abort", code |-> 183, status_first |-> TRUE]}      \* declined: a receipt number is shown, then the abort
     [] seq = "PartialReversal" /\ isQuery -> {[o |-> "pending"], [o |-> "pending", receipt |-> 65535, code |-> 183]}
-    [] seq = "PartialReversal" -> {[o |-> "ok", status |-> StatusFields], [o |-> "ok_nostatus"], [o |-> "abort", code |-> 183]}
+    [] seq = "PartialReversal" -> {[o |-> "ok", status |-> StatusFields], [o |-> "ok_nostatus"], [o |-> "abort", code |-> 183],
+                                   [o |-> "abort", code |-> 183, status_first |-> TRUE, status |-> StatusFields]}
     [] seq = "PreAuthReversal" -> {[o |-> "ok"], [o |-> "abort", code |-> 181]}
     [] seq = "EndOfDay" -> {[o |-> "ok"], [o |-> "abort", code |-> 160], [o |-> "abort", code |-> 119]}
     [] seq = "GetSystemInfo" -> {[o |-> "ok"], [o |-> "ok", terminal_id |-> "11111111"], [o |-> "abort", code |-> 131]}
@@ -99,7 +100,8 @@ Answer(t, rq, o) ==
          [replies |-> <<Rp("PartialReversalAbort", [error |-> D(code), receipt_no |-> rn])>>, term |-> t]
     [] rq.seq = "PartialReversal" ->
          LET r == DToInt(rq.val.receipt_no[1]) IN
-         IF o.o = "abort" THEN [replies |-> <<Rp("PartialReversalAbort", [error |-> D(o.code), receipt_no |-> <<>>])>>, term |-> t]
+         IF o.o = "abort" THEN [replies |-> (IF "status_first" \in DOMAIN o THEN <<Rp("StatusInformation", StatusVal(<<D(r)>>, o.status))>> ELSE <<>>)
+                                            \o <<Rp("PartialReversalAbort", [error |-> D(o.code), receipt_no |-> <<>>])>>, term |-> t]
          ELSE IF o.o = "ok_nostatus" THEN [replies |-> <<Completion>>, term |-> [t EXCEPT !.open = @ \ {r}, !.known = @ \ {r}]]
          ELSE [replies |-> <<Rp("StatusInformation", StatusVal(<<D(r)>>, o.status)), Completion>>,
                term |-> [t EXCEPT !.open = @ \ {r}, !.known = @ \ {r}]]
